@@ -60,6 +60,8 @@ def cross_method(ctx, rule, cls: index.ClassInfo, eff, methods=None, skip_params
   methods = methods or list(cls.methods.values())
   escapes = []
   for m in methods:
+    if m.name.startswith('_') and m.name != '__init__':
+      continue  # arguments of private helpers are not caller-owned
     s = eff.summary(m.fq)
     selfname = m.pos_params[0] if m.pos_params else 'self'
     for (root, path), vals in s.esc.items():
